@@ -1,4 +1,465 @@
 import MirVerif.Model.SimplifyInline
-/-! Inlining of a straight-line callee is a simulation (filled in below). -/
+/-! Inlining of a callee whose (simplified) body is straight-line code is a simulation:
+parameter moves + renamed body + result moves, executed in the caller's activation, leave the
+caller-visible registers and the memory exactly as the call does. -/
 namespace MirVerif.Simplify
+open MirVerif.MirCore
+
+section
+variable {ρ μ : Type} [DecidableEq ρ] [ByteMem μ]
+
+/-- every register an operand mentions is visible to the caller (`vis`) -/
+def OpdVis (vis : ρ → Prop) : Opd ρ → Prop
+  | .reg r => vis r
+  | .imm _ => True
+  | .mem m => (∀ b, m.base = some b → vis b) ∧ (∀ i, m.index = some i → vis i)
+
+/-- callee registers `rc` live in the inlined activation `ri` under their new names -/
+def Carried (ren : ρ → ρ) (rc ri : Regs ρ) : Prop := ∀ r, rc.get r = ri.get (ren r)
+
+/-- two register files agree on the caller-visible registers -/
+def AgreeVis (vis : ρ → Prop) (a b : Regs ρ) : Prop := ∀ r, vis r → a.get r = b.get r
+
+theorem optGet_ren (ren : ρ → ρ) (rc ri : Regs ρ) (h : Carried ren rc ri) (o : Option ρ) :
+    optGet ri (o.map ren) = optGet rc o := by
+  cases o <;> simp [optGet, h _]
+
+theorem addr_ren (ren : ρ → ρ) (rc ri : Regs ρ) (h : Carried ren rc ri) (m : MemOp ρ) :
+    MemOp.addr { m with base := m.base.map ren, index := m.index.map ren } ri = m.addr rc := by
+  simp [MemOp.addr, optGet_ren ren rc ri h]
+
+theorem evalOpd_ren (ren : ρ → ρ) (rc ri : Regs ρ) (h : Carried ren rc ri) (g : G μ) (o : Opd ρ) :
+    evalOpd ri g (renOpd ren o) = evalOpd rc g o := by
+  cases o with
+  | reg r => simp [renOpd, evalOpd, h r]
+  | imm v => rfl
+  | mem m => simp only [renOpd, evalOpd, addr_ren ren rc ri h m]
+
+theorem optGet_vis (vis : ρ → Prop) (a b : Regs ρ) (h : AgreeVis vis a b) (o : Option ρ)
+    (ho : ∀ r, o = some r → vis r) : optGet a o = optGet b o := by
+  cases o with
+  | none => rfl
+  | some r => simp [optGet, h r (ho r rfl)]
+
+theorem evalOpd_vis (vis : ρ → Prop) (a b : Regs ρ) (h : AgreeVis vis a b) (g : G μ) (o : Opd ρ)
+    (ho : OpdVis vis o) : evalOpd a g o = evalOpd b g o := by
+  cases o with
+  | reg r => simp [evalOpd, h r ho]
+  | imm v => rfl
+  | mem m =>
+    have e : m.addr a = m.addr b := by
+      simp [MemOp.addr, optGet_vis vis a b h m.base ho.1, optGet_vis vis a b h m.index ho.2]
+    simp only [evalOpd, e]
+
+variable (ren : ρ → ρ) (vis : ρ → Prop)
+
+/-- writing a callee destination in the callee's activation vs. the renamed destination in the
+inlined activation -/
+theorem setOpd_ren (hinj : ∀ a b, ren a = ren b → a = b) (hfresh : ∀ r, ¬ vis (ren r))
+    (rc ri r0 : Regs ρ) (hc : Carried ren rc ri) (hv : AgreeVis vis ri r0) (g : G μ) (d : Opd ρ) (v : W64)
+    (rc' : Regs ρ) (g' : G μ) (h : setOpd rc g d v = .ok (rc', g')) :
+    ∃ ri', setOpd ri g (renOpd ren d) v = .ok (ri', g') ∧ Carried ren rc' ri' ∧ AgreeVis vis ri' r0 := by
+  cases d with
+  | reg r =>
+    simp only [setOpd, Except.ok.injEq, Prod.mk.injEq] at h
+    obtain ⟨rfl, rfl⟩ := h
+    refine ⟨ri.set (ren r) v, rfl, ?_, ?_⟩
+    · intro x
+      rw [Regs.get_set, Regs.get_set]
+      by_cases e : x = r
+      · subst e; simp
+      · have e' : ¬ ren x = ren r := fun q => e (hinj _ _ q)
+        simp [e, e', hc x]
+    · intro x hx
+      have e : x ≠ ren r := fun q => hfresh r (q ▸ hx)
+      rw [Regs.get_set_other _ _ _ _ e]; exact hv x hx
+  | imm c => simp [setOpd] at h
+  | mem m =>
+    have ea := addr_ren ren rc ri hc m
+    simp only [setOpd] at h
+    simp only [renOpd, setOpd, ea]
+    split at h
+    · rename_i hval
+      simp only [Except.ok.injEq, Prod.mk.injEq] at h
+      obtain ⟨rfl, rfl⟩ := h
+      exact ⟨ri, by simp [hval], hc, hv⟩
+    · cases h
+
+/-- one straight-line instruction -/
+theorem step_ren (hinj : ∀ a b, ren a = ren b → a = b) (hfresh : ∀ r, ¬ vis (ren r))
+    (i : Insn ρ) (hs : Straight i = true) (fc fi : Frame ρ) (r0 : Regs ρ)
+    (hc : Carried ren fc.regs fi.regs) (hv : AgreeVis vis fi.regs r0) (g : G μ)
+    (fc' : Frame ρ) (g' : G μ) (h : stepInsn [] i fc g = .ok (fc', g')) :
+    ∃ fi', stepInsn [] (renInsn ren i) fi g = .ok (fi', g') ∧
+      Carried ren fc'.regs fi'.regs ∧ AgreeVis vis fi'.regs r0 := by
+  cases i <;> simp [Straight] at hs
+  · -- bin
+    rename_i a s d x y
+    simp only [stepInsn, renInsn, evalOpd_ren ren _ _ hc] at h ⊢
+    cases hx : evalOpd fc.regs g x with
+    | error e => simp [hx, bind, Except.bind] at h
+    | ok vx =>
+      cases hy : evalOpd fc.regs g y with
+      | error e => simp [hx, hy, bind, Except.bind] at h
+      | ok vy =>
+        cases hr : ofOpt (opName a s) (docSem a s vx vy) with
+        | error e => simp [hx, hy, hr, bind, Except.bind] at h
+        | ok r =>
+          cases hd : setOpd fc.regs g d r with
+          | error e => simp [hx, hy, hr, hd, bind, Except.bind] at h
+          | ok p =>
+            obtain ⟨rc', g1⟩ := p
+            simp [hx, hy, hr, hd, bind, Except.bind, pure, Except.pure] at h
+            obtain ⟨rfl, rfl⟩ := h
+            obtain ⟨ri', e1, e2, e3⟩ := setOpd_ren ren vis hinj hfresh _ _ r0 hc hv g d r rc' _ hd
+            exact ⟨_, by simp [hx, hy, hr, e1, bind, Except.bind, pure, Except.pure]; rfl, by simpa [next] using e2,
+              by simpa [next] using e3⟩
+  · -- mov
+    rename_i d x
+    simp only [stepInsn, renInsn, evalOpd_ren ren _ _ hc] at h ⊢
+    cases hx : evalOpd fc.regs g x with
+    | error e => simp [hx, bind, Except.bind] at h
+    | ok vx =>
+      cases hd : setOpd fc.regs g d vx with
+      | error e => simp [hx, hd, bind, Except.bind] at h
+      | ok p =>
+        obtain ⟨rc', g1⟩ := p
+        simp [hx, hd, bind, Except.bind, pure, Except.pure] at h
+        obtain ⟨rfl, rfl⟩ := h
+        obtain ⟨ri', e1, e2, e3⟩ := setOpd_ren ren vis hinj hfresh _ _ r0 hc hv g d vx rc' _ hd
+        exact ⟨_, by simp [hx, e1, bind, Except.bind, pure, Except.pure]; rfl, by simpa [next] using e2,
+          by simpa [next] using e3⟩
+  · -- ext
+    rename_i k sg d x
+    simp only [stepInsn, renInsn, evalOpd_ren ren _ _ hc] at h ⊢
+    cases hx : evalOpd fc.regs g x with
+    | error e => simp [hx, bind, Except.bind] at h
+    | ok vx =>
+      cases hd : setOpd fc.regs g d (docExt k sg vx) with
+      | error e => simp [hx, hd, bind, Except.bind] at h
+      | ok p =>
+        obtain ⟨rc', g1⟩ := p
+        simp [hx, hd, bind, Except.bind, pure, Except.pure] at h
+        obtain ⟨rfl, rfl⟩ := h
+        obtain ⟨ri', e1, e2, e3⟩ := setOpd_ren ren vis hinj hfresh _ _ r0 hc hv g d _ rc' _ hd
+        exact ⟨_, by simp [hx, e1, bind, Except.bind, pure, Except.pure]; rfl, by simpa [next] using e2,
+          by simpa [next] using e3⟩
+  · -- neg
+    rename_i sh d x
+    simp only [stepInsn, renInsn, evalOpd_ren ren _ _ hc] at h ⊢
+    cases hx : evalOpd fc.regs g x with
+    | error e => simp [hx, bind, Except.bind] at h
+    | ok vx =>
+      cases hd : setOpd fc.regs g d (docNeg sh vx) with
+      | error e => simp [hx, hd, bind, Except.bind] at h
+      | ok p =>
+        obtain ⟨rc', g1⟩ := p
+        simp [hx, hd, bind, Except.bind, pure, Except.pure] at h
+        obtain ⟨rfl, rfl⟩ := h
+        obtain ⟨ri', e1, e2, e3⟩ := setOpd_ren ren vis hinj hfresh _ _ r0 hc hv g d _ rc' _ hd
+        exact ⟨_, by simp [hx, e1, bind, Except.bind, pure, Except.pure]; rfl, by simpa [next] using e2,
+          by simpa [next] using e3⟩
+
+/-- a straight-line body -/
+theorem execSeq_ren (hinj : ∀ a b, ren a = ren b → a = b) (hfresh : ∀ r, ¬ vis (ren r)) (r0 : Regs ρ) :
+    ∀ (B : List (Insn ρ)) (_ : ∀ i ∈ B, Straight i = true) (fc fi : Frame ρ)
+      (_ : Carried ren fc.regs fi.regs) (_ : AgreeVis vis fi.regs r0) (g : G μ) (fc' : Frame ρ) (g' : G μ)
+      (_ : execSeq B fc g = .ok (fc', g')),
+      ∃ fi', execSeq (B.map (renInsn ren)) fi g = .ok (fi', g') ∧
+        Carried ren fc'.regs fi'.regs ∧ AgreeVis vis fi'.regs r0
+  | [], _, fc, fi, hc, hv, g, fc', g', h => by
+    simp only [execSeq, Except.ok.injEq, Prod.mk.injEq] at h
+    obtain ⟨rfl, rfl⟩ := h
+    exact ⟨fi, rfl, hc, hv⟩
+  | i :: tl, hs, fc, fi, hc, hv, g, fc', g', h => by
+    simp only [execSeq] at h
+    cases h1 : stepInsn [] i fc g with
+    | error e => simp [h1, bind, Except.bind] at h
+    | ok p =>
+      obtain ⟨fc1, g1⟩ := p
+      simp only [h1, bind, Except.bind] at h
+      obtain ⟨fi1, e1, c1, v1⟩ := step_ren ren vis hinj hfresh i (hs i (by simp)) fc fi r0 hc hv g fc1 g1 h1
+      obtain ⟨fi', e2, c2, v2⟩ := execSeq_ren hinj hfresh r0 tl (fun j hj => hs j (by simp [hj])) fc1 fi1 c1 v1 g1 fc' g' h
+      exact ⟨fi', by simp [List.map_cons, execSeq, e1, bind, Except.bind, e2], c2, v2⟩
+
+/-- value a parameter list gives a register: the first occurrence wins (what `enter` does) -/
+def pget (dflt : ρ → W64) : List ρ → List W64 → ρ → W64
+  | p :: ps, v :: vs, r => if r = p then v else pget dflt ps vs r
+  | _, _, r => dflt r
+
+theorem enter_get (init : Regs ρ) : ∀ (ps : List ρ) (vs : List W64) (g : G μ) (rs : Regs ρ) (g' : G μ),
+    enter init (ps.map fun p => (p, Ty.i64)) vs g = .ok (rs, g') →
+    g' = g ∧ ps.length = vs.length ∧ ∀ r, rs.get r = pget init.get ps vs r
+  | [], [], g, rs, g', h => by
+    simp only [List.map_nil, enter, Except.ok.injEq, Prod.mk.injEq] at h
+    obtain ⟨rfl, rfl⟩ := h
+    exact ⟨rfl, rfl, fun _ => rfl⟩
+  | [], _ :: _, g, rs, g', h => by simp [enter] at h
+  | _ :: _, [], g, rs, g', h => by simp [enter] at h
+  | p :: ps, v :: vs, g, rs, g', h => by
+    simp only [List.map_cons, enter] at h
+    cases h1 : enter init (ps.map fun p => (p, Ty.i64)) vs g with
+    | error e => simp [h1, bind, Except.bind] at h
+    | ok q =>
+      obtain ⟨rs1, g1⟩ := q
+      simp only [h1, bind, Except.bind, pure, Except.pure, Except.ok.injEq, Prod.mk.injEq] at h
+      obtain ⟨rfl, rfl⟩ := h
+      obtain ⟨e1, e2, e3⟩ := enter_get init ps vs g rs1 g1 h1
+      refine ⟨e1, by simp [e2], ?_⟩
+      intro r
+      rw [Regs.get_set]
+      simp [pget, Ty.trunc, Ty.bytes, e3 r]
+
+/-- the parameter moves, executed one after the other in the caller's activation -/
+theorem paramMoves_exec (hinj : ∀ a b, ren a = ren b → a = b) (hfresh : ∀ r, ¬ vis (ren r)) (r0 : Regs ρ)
+    (g : G μ) :
+    ∀ (ps : List ρ) (args : List (Opd ρ)) (vs : List W64) (fi : Frame ρ),
+      ps.Nodup → (∀ a ∈ args, OpdVis vis a) → evalOpds r0 g args = .ok vs → ps.length = vs.length →
+      AgreeVis vis fi.regs r0 →
+      ∃ fi', execSeq (paramMoves ren ps args) fi g = .ok (fi', g) ∧ AgreeVis vis fi'.regs r0 ∧
+        (∀ r, fi'.regs.get (ren r) = pget (fun x => fi.regs.get (ren x)) ps vs r)
+  | [], args, vs, fi, _, _, _, hl, hv => by
+    cases vs with
+    | nil => exact ⟨fi, by cases args <;> simp [paramMoves, execSeq], hv, fun _ => rfl⟩
+    | cons _ _ => simp at hl
+  | p :: ps, [], vs, fi, _, _, he, hl, _ => by
+    simp only [evalOpds, Except.ok.injEq] at he
+    subst he; simp at hl
+  | p :: ps, a :: args, vs, fi, hn, ha, he, hl, hv => by
+    simp only [evalOpds] at he
+    cases h1 : evalOpd r0 g a with
+    | error e => simp [h1, bind, Except.bind] at he
+    | ok v =>
+      cases h2 : evalOpds r0 g args with
+      | error e => simp [h1, h2, bind, Except.bind] at he
+      | ok vs' =>
+        simp only [h1, h2, bind, Except.bind, pure, Except.pure, Except.ok.injEq] at he
+        subst he
+        have hn' : ps.Nodup := (List.nodup_cons.mp hn).2
+        have hp : p ∉ ps := (List.nodup_cons.mp hn).1
+        have ev : evalOpd fi.regs g a = .ok v := by
+          rw [evalOpd_vis vis fi.regs r0 hv g a (ha a (by simp))]; exact h1
+        have hv1 : AgreeVis vis (fi.regs.set (ren p) v) r0 := by
+          intro x hx
+          have e : x ≠ ren p := fun q => hfresh p (q ▸ hx)
+          rw [Regs.get_set_other _ _ _ _ e]; exact hv x hx
+        obtain ⟨fi', e1, e2, e3⟩ := paramMoves_exec hinj hfresh r0 g ps args vs'
+          (next { fi with regs := fi.regs.set (ren p) v }) hn' (fun b hb => ha b (by simp [hb])) h2
+          (by simpa using hl) (by simpa [next] using hv1)
+        refine ⟨fi', ?_, e2, ?_⟩
+        · simp only [paramMoves, execSeq, stepInsn, ev, setOpd, bind, Except.bind, pure, Except.pure]
+          exact e1
+        · intro r
+          rw [e3 r]
+          simp only [pget, next]
+          by_cases e : r = p
+          · subst e
+            -- `r` does not occur among the remaining parameters: the default is what the move wrote
+            have : ∀ (qs : List ρ) (ws : List W64), r ∉ qs →
+                pget (fun x => (fi.regs.set (ren r) v).get (ren x)) qs ws r = v := by
+              intro qs
+              induction qs with
+              | nil => intro ws _; cases ws <;> simp [pget]
+              | cons q qt ih =>
+                intro ws hq
+                cases ws with
+                | nil => simp [pget]
+                | cons w wt =>
+                  have hne : r ≠ q := fun e => hq (by simp [e])
+                  simp only [pget, hne, if_false]
+                  exact ih wt (fun h => hq (by simp [h]))
+            simp [this ps vs' hp]
+          · simp only [e, if_false]
+            -- for other registers the default is the old content
+            have : ∀ (qs : List ρ) (ws : List W64),
+                pget (fun x => (fi.regs.set (ren p) v).get (ren x)) qs ws r
+                  = pget (fun x => fi.regs.get (ren x)) qs ws r := by
+              intro qs
+              induction qs with
+              | nil =>
+                intro ws
+                have e' : ren r ≠ ren p := fun q => e (hinj _ _ q)
+                cases ws <;> simp [pget, Regs.get_set_other _ _ _ _ e']
+              | cons q qt ih =>
+                intro ws
+                cases ws with
+                | nil =>
+                  have e' : ren r ≠ ren p := fun q => e (hinj _ _ q)
+                  simp [pget, Regs.get_set_other _ _ _ _ e']
+                | cons w wt =>
+                  simp only [pget]
+                  split
+                  · rfl
+                  · exact ih wt
+            exact this ps vs'
+
+
+theorem execSeq_append : ∀ (a b : List (Insn ρ)) (fr : Frame ρ) (g : G μ),
+    execSeq (a ++ b) fr g = (execSeq a fr g >>= fun p => execSeq b p.1 p.2)
+  | [], b, fr, g => by simp [execSeq, bind, Except.bind]
+  | i :: tl, b, fr, g => by
+    simp only [List.cons_append, execSeq]
+    cases stepInsn [] i fr g with
+    | error e => simp [bind, Except.bind]
+    | ok p => simp [bind, Except.bind, execSeq_append tl b p.1 p.2]
+
+/-- writing a caller-visible destination in two register files that agree on the visible registers -/
+theorem setOpd_vis (hfresh : ∀ r, ¬ vis (ren r)) (a b : Regs ρ) (hv : AgreeVis vis a b) (g : G μ) (d : Opd ρ)
+    (hd : OpdVis vis d) (v : W64) (b' : Regs ρ) (g' : G μ) (h : setOpd b g d v = .ok (b', g')) :
+    ∃ a', setOpd a g d v = .ok (a', g') ∧ AgreeVis vis a' b' ∧ (∀ r, a'.get (ren r) = a.get (ren r)) := by
+  cases d with
+  | reg x =>
+    simp only [setOpd, Except.ok.injEq, Prod.mk.injEq] at h
+    obtain ⟨rfl, rfl⟩ := h
+    refine ⟨a.set x v, rfl, ?_, ?_⟩
+    · intro y hy; rw [Regs.get_set, Regs.get_set]; split <;> [rfl; exact hv y hy]
+    · intro r
+      have e : ren r ≠ x := fun q => hfresh r (q ▸ hd)
+      exact Regs.get_set_other _ _ _ _ e
+  | imm c => simp [setOpd] at h
+  | mem m =>
+    have e : m.addr a = m.addr b := by
+      simp [MemOp.addr, optGet_vis vis a b hv m.base hd.1, optGet_vis vis a b hv m.index hd.2]
+    simp only [setOpd] at h ⊢
+    rw [e]
+    split at h
+    · rename_i hval
+      simp only [Except.ok.injEq, Prod.mk.injEq] at h
+      obtain ⟨rfl, rfl⟩ := h
+      exact ⟨a, by simp [hval], hv, fun _ => rfl⟩
+    · cases h
+
+/-- the result moves -/
+theorem resultMoves_exec (hfresh : ∀ r, ¬ vis (ren r)) (rcF : Regs ρ) :
+    ∀ (ds : List (Opd ρ)) (rr : List ρ) (rcall : Regs ρ) (fi : Frame ρ) (g : G μ) (rsC : Regs ρ) (gC : G μ),
+      AgreeVis vis fi.regs rcall → (∀ r, fi.regs.get (ren r) = rcF.get r) → (∀ d ∈ ds, OpdVis vis d) →
+      setOpds rcall g ds (rr.map rcF.get) = .ok (rsC, gC) →
+      ∃ fi', execSeq (resultMoves ren ds rr) fi g = .ok (fi', gC) ∧ AgreeVis vis fi'.regs rsC
+  | [], [], rcall, fi, g, rsC, gC, hv, _, _, h => by
+    simp only [List.map_nil, setOpds, Except.ok.injEq, Prod.mk.injEq] at h
+    obtain ⟨rfl, rfl⟩ := h
+    exact ⟨fi, rfl, hv⟩
+  | [], _ :: _, _, _, _, _, _, _, _, _, h => by simp [setOpds] at h
+  | _ :: _, [], _, _, _, _, _, _, _, _, h => by simp [setOpds] at h
+  | d :: ds, r :: rr, rcall, fi, g, rsC, gC, hv, hc, hd, h => by
+    simp only [List.map_cons, setOpds] at h
+    cases h1 : setOpd rcall g d (rcF.get r) with
+    | error e => simp [h1, bind, Except.bind] at h
+    | ok q =>
+      obtain ⟨rc1, g1⟩ := q
+      simp only [h1, bind, Except.bind] at h
+      obtain ⟨a', e1, e2, e3⟩ := setOpd_vis ren vis hfresh fi.regs rcall hv g d (hd d (by simp)) _ rc1 g1 h1
+      obtain ⟨fi', e4, e5⟩ := resultMoves_exec hfresh rcF ds rr rc1 (next { fi with regs := a' }) g1 rsC gC
+        (by simpa [next] using e2) (by intro x; simp only [next]; rw [e3 x]; exact hc x)
+        (fun x hx => hd x (by simp [hx])) h
+      refine ⟨fi', ?_, e5⟩
+      simp only [resultMoves, execSeq, stepInsn, evalOpd, hc r, e1, bind, Except.bind, pure, Except.pure]
+      exact e4
+
+/-- straight-line code does not move the alloca pointer -/
+theorem setOpd_sp (rs : Regs ρ) (g : G μ) (d : Opd ρ) (v : W64) (rs' : Regs ρ) (g' : G μ)
+    (h : setOpd rs g d v = .ok (rs', g')) : g'.sp = g.sp ∧ g'.log = g.log := by
+  cases d with
+  | reg x => simp only [setOpd, Except.ok.injEq, Prod.mk.injEq] at h; obtain ⟨_, rfl⟩ := h; exact ⟨rfl, rfl⟩
+  | imm c => simp [setOpd] at h
+  | mem m =>
+    simp only [setOpd] at h
+    split at h
+    · simp only [Except.ok.injEq, Prod.mk.injEq] at h; obtain ⟨_, rfl⟩ := h; exact ⟨rfl, rfl⟩
+    · cases h
+
+theorem step_sp (i : Insn ρ) (hs : Straight i = true) (fr fr' : Frame ρ) (g g' : G μ)
+    (h : stepInsn [] i fr g = .ok (fr', g')) : g'.sp = g.sp := by
+  cases i <;> simp [Straight] at hs
+  all_goals
+    simp only [stepInsn, bind, Except.bind, pure, Except.pure] at h
+    repeat (split at h <;> try (cases h))
+    rename_i hd
+    first
+      | exact (by injection h with h; injection h with _ h2; subst h2; exact (setOpd_sp _ _ _ _ _ _ hd).1)
+
+theorem execSeq_sp : ∀ (B : List (Insn ρ)) (_ : ∀ i ∈ B, Straight i = true) (fr fr' : Frame ρ) (g g' : G μ),
+    execSeq B fr g = .ok (fr', g') → g'.sp = g.sp
+  | [], _, fr, fr', g, g', h => by
+    simp only [execSeq, Except.ok.injEq, Prod.mk.injEq] at h; obtain ⟨_, rfl⟩ := h; rfl
+  | i :: tl, hs, fr, fr', g, g', h => by
+    simp only [execSeq] at h
+    cases h1 : stepInsn [] i fr g with
+    | error e => simp [h1, bind, Except.bind] at h
+    | ok p =>
+      simp only [h1, bind, Except.bind] at h
+      have := execSeq_sp tl (fun j hj => hs j (by simp [hj])) p.1 fr' p.2 g' h
+      rw [this, step_sp i (hs i (by simp)) fr p.1 g p.2 (by simpa using h1)]
+
+/-- the meaning of `call` for a callee `params; body; ret rets` with straight-line `body`, exactly
+as `exec` computes it (evaluate the arguments, enter a new activation whose other registers start
+from `init`, run the body, write the results, restore the alloca pointer) -/
+def callSem (init : Regs ρ) (params : List ρ) (body : List (Insn ρ)) (rets : List ρ)
+    (res args : List (Opd ρ)) (fr : Frame ρ) (g : G μ) : Except Err (Regs ρ × G μ) := do
+  let av ← evalOpds fr.regs g args
+  let (rs0, g0) ← enter init (params.map fun p => (p, Ty.i64)) av g
+  let (fc, g1) ← execSeq body { regs := rs0, pc := 0 } g0
+  setOpds fr.regs { g1 with sp := g.sp } res (rets.map fc.regs.get)
+
+/-- **inline_sound_partial** (core).  If the call succeeds with caller registers `rsC` and global
+state `gC`, the inlined code run in the caller's own activation succeeds with the same global state
+and the same contents of every caller-visible register. -/
+theorem inline_straight (hinj : ∀ a b, ren a = ren b → a = b) (hfresh : ∀ r, ¬ vis (ren r))
+    (init : Regs ρ) (params : List ρ) (body : List (Insn ρ)) (rets : List ρ) (res args : List (Opd ρ))
+    (fr : Frame ρ) (g : G μ) (hn : params.Nodup) (hb : ∀ i ∈ body, Straight i = true)
+    (ha : ∀ a ∈ args, OpdVis vis a) (hd : ∀ d ∈ res, OpdVis vis d)
+    (hinit : ∀ r, init.get r = fr.regs.get (ren r))
+    (rsC : Regs ρ) (gC : G μ) (hcall : callSem init params body rets res args fr g = .ok (rsC, gC)) :
+    ∃ fi, execSeq (inlinedCode ren params body rets res args) fr g = .ok (fi, gC) ∧
+      AgreeVis vis fi.regs rsC := by
+  simp only [callSem] at hcall
+  cases h1 : evalOpds fr.regs g args with
+  | error e => simp [h1, bind, Except.bind] at hcall
+  | ok av =>
+    simp only [h1, bind, Except.bind] at hcall
+    cases h2 : enter init (params.map fun p => (p, Ty.i64)) av g with
+    | error e => simp [h2] at hcall
+    | ok q =>
+      obtain ⟨rs0, g0⟩ := q
+      simp only [h2] at hcall
+      obtain ⟨eg, el, eget⟩ := enter_get init params av g rs0 g0 h2
+      subst eg
+      cases h3 : execSeq body { regs := rs0, pc := 0 } g0 with
+      | error e => simp [h3] at hcall
+      | ok q3 =>
+        obtain ⟨fc, g1⟩ := q3
+        simp only [h3] at hcall
+        have hsp : g1.sp = g0.sp := execSeq_sp body hb _ fc g0 g1 h3
+        have hg1 : ({ g1 with sp := g0.sp } : G μ) = g1 := by cases g1; simp_all
+        rw [hg1] at hcall
+        -- parameter moves
+        obtain ⟨f1, e1, v1, c1⟩ := paramMoves_exec ren vis hinj hfresh fr.regs g0 params args av fr hn ha h1 el
+          (fun _ _ => rfl)
+        have hc1 : Carried ren rs0 f1.regs := by
+          intro r
+          rw [eget r, c1 r]
+          have : ∀ (qs : List ρ) (ws : List W64), pget init.get qs ws r = pget (fun x => fr.regs.get (ren x)) qs ws r := by
+            intro qs
+            induction qs with
+            | nil => intro ws; cases ws <;> simp [pget, hinit r]
+            | cons q qt ih =>
+              intro ws
+              cases ws with
+              | nil => simp [pget, hinit r]
+              | cons w wt =>
+                simp only [pget]
+                split
+                · rfl
+                · exact ih wt
+          exact this params av
+        -- body
+        obtain ⟨f2, e2, c2, v2⟩ := execSeq_ren ren vis hinj hfresh fr.regs body hb
+          { regs := rs0, pc := 0 } f1 hc1 v1 g0 fc g1 h3
+        -- result moves
+        obtain ⟨f3, e3, v3⟩ := resultMoves_exec ren vis hfresh fc.regs res rets fr.regs f2 g1 rsC gC v2
+          (fun r => (c2 r).symm) hd hcall
+        refine ⟨f3, ?_, v3⟩
+        simp only [inlinedCode, execSeq_append, e1, e2, e3, bind, Except.bind]
+
+end
 end MirVerif.Simplify
